@@ -160,8 +160,8 @@ def runFrom (env : Env) : Nat → Json → Str → Json → Json → Nat → St 
       runState env fuel states name state data ctx retries st
 termination_by structural fuel => fuel
 
-/-- leave `state`, entered with raw input `raw`, with output `data`: End → done, else continue at Next
-(the checks of `change_state`).  A refused transition (no `Next`; output text over the size limit) is
+/-- leave `state`, entered with raw input `raw`, with output `data`: End → done (if the output is within
+the size limit: `handle_terminal_state`), else continue at Next (the checks of `change_state`).  A refused transition (no `Next`; output text over the size limit) is
 an error *of this state*: Retry / Catch work on the state's raw input — a retried state is re-run on
 `raw`, a catcher's ResultPath places the Error Output into `raw` — and the retry count is kept
 (Task: `on_response`; Parallel / Map: `asl_state_collect_results`, which puts the saved RetryCount back;
@@ -171,7 +171,11 @@ data is dropped; the model is uniform and the property (C07) speaks of the origi
 def leave (env : Env) : Nat → Json → Str → Json → Json → Json → Json → Nat → St → Res × St
   | 0, _, _, _, _, _, _, _, st => (.fuel, st)
   | fuel + 1, states, name, state, raw, data, ctx, retries, st =>
-    if isTrue (fld state "End") then (.done data, st)
+    if isTrue (fld state "End") then
+      -- `handle_terminal_state` / the join: the output of a terminal state is measured like any other
+      if (render data).length > env.maxData then
+        handleErr env fuel states name state raw ctx retries (S "States.DataLimitExceeded") (S "m") st
+      else (.done data, st)
     else match fldStr state "Next" with
       | none => handleErr env fuel states name state raw ctx retries (S "States.Runtime") (S "m") st
       | some next =>
@@ -229,7 +233,10 @@ def runState (env : Env) : Nat → Json → Str → Json → Json → Json → N
       | .ok input =>
         match applyPath input ctx (pathArg state "OutputPath") with
         | .error pe => fail pe st
-        | .ok out => (.done out, st)
+        | .ok out =>
+          if (render out).length > env.maxData then
+            handleErr env fuel states name state data ctx retries (S "States.DataLimitExceeded") (S "m") st
+          else (.done out, st)
     else if ty = S "Fail" then
       let e := (fldStr state "Error").getD (S "Unspecified")
       let c := (fld state "Cause").getD (.str (S "Unspecified"))
